@@ -174,8 +174,27 @@ def find_fn(crate, today, sig, scope=None):
     if today in have:
         return today
     pat = _re.compile(sig)
-    hits = [f["path"] for f in crate.facts["fns"] if not f["pub"] and f["has_body"] and f["path"] in have and not f["path"].startswith("<")
-            and (scope is None or f["path"].startswith(scope)) and pat.fullmatch(norm_sig(f["sig"]))]
+    cands = [f["path"] for f in crate.facts["fns"] if not f["pub"] and f["has_body"] and f["path"] in have and not f["path"].startswith("<")
+             and pat.fullmatch(norm_sig(f["sig"]))]
+    hits = [p_ for p_ in cands if scope is None or p_.startswith(scope)]
+    if len(hits) != 1 and scope is not None:
+        # moved out of the type's impl block into another module: the signature must then single it out in the whole crate
+        # among the functions that mention the type's name
+        ident = scope.split("::")[-1]
+        hits = [f["path"] for f in crate.facts["fns"] if f["path"] in cands and ident in f["sig"]]
     if len(hits) != 1:
         raise Anchor("no function %s and %d private functions of signature %s" % (today, len(hits), sig))
+    return hits[0]
+
+
+def find_method(crate, today, type_ident, method):
+    """definition path of a (public) inherent method that may have moved to an impl block in another module: today's path,
+    else the only function named `method` whose path mentions an impl for / of `type_ident`"""
+    from .harness import Anchor
+    have = {b["def"] for b in crate.bodies.values()}
+    if today in have:
+        return today
+    hits = sorted({d for d in have if d.split("::")[-1] == method and type_ident in d and "{closure" not in d})
+    if len(hits) != 1:
+        raise Anchor("method %s of %s not found (%d candidates)" % (method, type_ident, len(hits)))
     return hits[0]
